@@ -12,6 +12,10 @@ checked against the call sequence extracted from PyToPy.transform_ast.
  O5  a pass that binds converter-generated names in the user's function
      precedes the pass that computes loop/branch state (control_flow); passes
      after it bind no generated names
+ O7  an analysis annotation a pass reads is fresh: recomputed by the pass's own
+     transform() before its visitor runs, or one of the keys template copies
+     preserve (the first pass runs directly on the initial analysis); anything
+     else was dropped when an earlier pass moved the code through a template
  O6  generated code parked in an annotation (the extra loop test) is invisible
      to tree traversal until the pass that reads the annotation puts it into the
      tree: that pass precedes the pass responsible for every overloadable
@@ -291,6 +295,60 @@ def constraints(model):
   return names, [(a, b, r, why) for (a, b, r), why in seen.items()], fi
 
 
+PRODUCERS = {
+    'qual_names.resolve': {'anno.Basic.QN'},
+    'activity.resolve': {'anno.Static.SCOPE', 'NodeAnno.*'},
+    'reaching_definitions.resolve': {'anno.Static.DEFINITIONS',
+                                     'anno.Static.DEFINED_VARS_IN'},
+    'reaching_fndefs.resolve': {'anno.Static.DEFINED_FNS_IN'},
+    'liveness.resolve': {'anno.Static.LIVE_VARS_IN', 'anno.Static.LIVE_VARS_OUT'},
+}
+
+
+def freshness(model, rep, rule):
+  names, mods, fi = pipeline(model)
+  init = model.func(API, 'PyToPy.initial_analysis')
+  initial = set()
+  for c in ast.walk(init.node):
+    if isinstance(c, ast.Call) and core.dotted(c.func) in PRODUCERS:
+      initial |= PRODUCERS[core.dotted(c.func)]
+  ctor = model.func('malt/pyct/templates.py', 'ReplaceTransformer.__init__')
+  preserved = set()
+  for n in ast.walk(ctor.node):
+    if isinstance(n, ast.Set):
+      preserved |= {core.norm(e) for e in n.elts}
+  if not preserved:
+    raise core.AnalysisError('ReplaceTransformer.preserved_annos not found')
+  for idx, p in enumerate(names):
+    mod = mods[p]
+    tf = mod.functions.get('transform')
+    made = set(initial) if idx == 0 else set()
+    if tf is not None:
+      for c in ast.walk(tf.node):
+        if isinstance(c, ast.Call) and core.dotted(c.func) in PRODUCERS:
+          made |= PRODUCERS[core.dotted(c.func)]
+    reads = {}
+    for f in mod.all_functions():
+      for c in core.walk_no_nested(f.node):
+        if isinstance(c, ast.Call) and (core.dotted(c.func) or '') in (
+            'anno.getanno', 'anno.hasanno') and len(c.args) >= 2:
+          k = core.norm(c.args[1]).replace('annos.', '')
+          if k.startswith(('anno.Static.', 'NodeAnno.')) or k == 'anno.Basic.QN':
+            reads.setdefault(k, []).append(f.qualname)
+    for k, where in sorted(reads.items()):
+      ok = k in made or (k.startswith('NodeAnno.') and 'NodeAnno.*' in made) or \
+          k in preserved
+      rep.check(ok, rule, '%s:%s-reads-fresh(%s)' % (fi.site, p, k),
+                'pass %s reads the analysis annotation %s, which its transform() '
+                'does not recompute and template copies do not preserve: after an '
+                'earlier pass moved the code through a template it is simply '
+                'absent' % (p, k), {'read_in': sorted(set(where)),
+                                    'recomputed': sorted(made)},
+                line=fi.node.lineno,
+                witness='a parameter that shadows a module-level alias of '
+                'set_loop_options: the user\'s call is taken for the directive')
+
+
 def check(model, rep, prop):
   rep.touch(API)
   rep.rule('ORDER', 'every order constraint computed from emitted / consumed '
@@ -310,3 +368,4 @@ def check(model, rep, prop):
               {'pipeline': names, 'reason': why}, line=fi.node.lineno,
               witness='a function using the construct named in the reason')
   rep.unit('order constraints', len(cons))
+  freshness(model, rep, 'ORDER')
